@@ -450,6 +450,9 @@ pub mod imp {
         op!(v, "file_membership", "stale", "", |w| format!("{}", r(w.e("stale").file_membership())));
         op!(v, "add_to_file", "same", "", |w| r(w.e("p1").add_to_file(&w.files[0])));
         op!(v, "add_to_file", "second", "S2", |w| r(w.e("p1").add_to_file(&w.files[1])));
+        // the element is not in the second file and neither are its ancestors up to P1: their file sets have to be extended too
+        op!(v, "add_to_file", "ancestor_needs_extension", "S2,S4", |w| r(w.e("sys").add_to_file(&w.files[1])));
+        op!(v, "add_to_file", "ancestor_needs_extension_ecu", "S2", |w| r(w.e("ecu1").add_to_file(&w.files[1])));
         op!(v, "add_to_file", "notsplittable", "", |w| r(w.e("ecu1").add_to_file(&w.files[0])));
         op!(v, "add_to_file", "foreign_file", "", |w| r(w.e("p1").add_to_file(&w.files2[0])));
         op!(v, "add_to_file", "stale", "", |w| r(w.e("stale").add_to_file(&w.files[0])));
